@@ -1,7 +1,315 @@
-//! placeholder (being written)
+//! C06 oracle: for every Repr type exported by smoltcp::wire (harness feature set; RPL and IPsec
+//! are behind non-default features), generated representations within the documented field
+//! ranges are emitted by the real `Repr::emit` into 0x00-, 0xff-, 0xa5- and random-filled
+//! buffers of `buffer_len()`; the outputs must be identical, parse back to an equal repr, and
+//! every repr obtained by parsing a mutated emitted packet must re-emit and re-parse to itself.
+//!
+//! Failure classes (`<type>-<kind>`, stable):
+//!   emit-panic, emit-depends-on-buffer, roundtrip-parse-error, roundtrip-mismatch, parse-panic,
+//!   reemit-panic, reemit-depends-on-buffer, reparse-parse-error, reparse-mismatch
+//!
+//! An oracle case is `case <id> fmt=oracle kind=c06 type=<type>` with one op `seed <u64> <tier>`:
+//! the whole check of that case (generated repr, buffers, mutations) is a function of the seed.
+//!
+//! To add a type: implement `WireType` and add `run_type::<T>` to `TYPES`.
+#![allow(dead_code)]
+use super::super::common::*;
+use smoltcp::phy::ChecksumCapabilities;
+use smoltcp::wire::*;
+use std::collections::BTreeMap;
+use std::fmt::Debug;
 use std::io::Write;
 use svh::*;
-pub fn run(_seed: u64, _n: usize, _tier: &str, out: &mut dyn Write) {
-    writeln!(out, "STATS {{\"cases\":0}}").unwrap();
+
+pub struct Fail {
+    pub class: String,
+    pub detail: String,
 }
-pub fn replay(_c: &Case, _out: &mut dyn Write) {}
+
+pub trait WireType {
+    /// owned description of a representation + the context its parse needs (addresses …)
+    type R: Debug + PartialEq + Clone;
+    const NAME: &'static str;
+    fn gen(r: &mut Rng, tier: &str) -> Self::R;
+    /// `Repr::buffer_len()` (the declared length)
+    fn buffer_len(x: &Self::R) -> usize;
+    /// octets that follow a header-only representation so that it can be parsed back
+    fn trailer(_x: &Self::R) -> Vec<u8> {
+        vec![]
+    }
+    /// real `Repr::emit` into a buffer of exactly `buffer_len`
+    fn emit(x: &Self::R, buf: &mut [u8]);
+    /// real `Repr::parse` (None = Err); context (addresses, caps) taken from `ctx`
+    fn parse(buf: &[u8], ctx: &Self::R) -> Option<Self::R>;
+    /// the property's proviso for representations obtained by parsing (default: none)
+    fn wf(_x: &Self::R) -> bool {
+        true
+    }
+    /// header field ranges used for boundary corruptions
+    fn fields() -> Vec<(usize, usize)> {
+        vec![]
+    }
+    /// false for types that have no `Repr::parse` (emit-only check)
+    const HAS_PARSE: bool = true;
+    /// explicit `k=v …` form of a representation for hand-written / corpus witnesses (`repr …` op)
+    fn encode(_x: &Self::R) -> Option<String> {
+        None
+    }
+    fn decode(_kv: &Kv) -> Option<Self::R> {
+        None
+    }
+}
+
+fn fills(r: &mut Rng, len: usize) -> Vec<(&'static str, Vec<u8>)> {
+    vec![("00", vec![0u8; len]), ("ff", vec![0xffu8; len]), ("a5", vec![0xa5u8; len]), ("random", r.bytes(len))]
+}
+
+fn emit_all<T: WireType>(r: &mut Rng, x: &T::R, what: &str, fails: &mut Vec<Fail>) -> Option<Vec<u8>> {
+    let len = match guard(|| T::buffer_len(x)) {
+        Some(l) => l,
+        None => {
+            fails.push(Fail { class: format!("{}-{}-panic", T::NAME, what), detail: format!("buffer_len() panicked for {:?}", x) });
+            return None;
+        }
+    };
+    let trailer = T::trailer(x);
+    let mut outs: Vec<(&str, Vec<u8>)> = vec![];
+    for (name, mut buf) in fills(r, len) {
+        if guard(|| T::emit(x, &mut buf[..])).is_none() {
+            fails.push(Fail {
+                class: format!("{}-{}-panic", T::NAME, what),
+                detail: format!("emit into a {}-filled buffer of buffer_len()={} panicked for {:?}", name, len, x),
+            });
+            return None;
+        }
+        buf.extend_from_slice(&trailer);
+        outs.push((name, buf));
+    }
+    for (name, o) in &outs[1..] {
+        if *o != outs[0].1 {
+            fails.push(Fail {
+                class: format!("{}-{}-depends-on-buffer", T::NAME, what),
+                detail: format!("{:?}: zero-filled buffer gives {} but {}-filled buffer gives {}", x, hex(&outs[0].1), name, hex(o)),
+            });
+            return Some(outs[0].1.clone());
+        }
+    }
+    Some(outs[0].1.clone())
+}
+
+pub fn check<T: WireType>(r: &mut Rng, tier: &str, explicit: Option<&Kv>, stats: &mut BTreeMap<String, u64>) -> (Vec<Fail>, Option<String>) {
+    let x = match explicit {
+        Some(kv) => match T::decode(kv) {
+            Some(x) => x,
+            None => return (vec![Fail { class: format!("{}-bad-witness", T::NAME), detail: "cannot decode the explicit repr".into() }], None),
+        },
+        None => T::gen(r, tier),
+    };
+    let enc = T::encode(&x);
+    (check_repr::<T>(r, tier, x, stats), enc)
+}
+
+pub fn check_repr<T: WireType>(r: &mut Rng, tier: &str, x: T::R, stats: &mut BTreeMap<String, u64>) -> Vec<Fail> {
+    let mut fails = vec![];
+    *stats.entry("reprs".into()).or_default() += 1;
+    let out = match emit_all::<T>(r, &x, "emit", &mut fails) {
+        Some(o) => o,
+        None => return fails,
+    };
+    if !T::HAS_PARSE {
+        return fails;
+    }
+    match guard(|| T::parse(&out, &x)) {
+        None => fails.push(Fail { class: format!("{}-parse-panic", T::NAME), detail: format!("parse of emitted {} panicked ({:?})", hex(&out), x) }),
+        Some(None) => fails.push(Fail {
+            class: format!("{}-roundtrip-parse-error", T::NAME),
+            detail: format!("{:?} emits {} which does not parse", x, hex(&out)),
+        }),
+        Some(Some(y)) => {
+            if y != x {
+                fails.push(Fail {
+                    class: format!("{}-roundtrip-mismatch", T::NAME),
+                    detail: format!("{:?} emits {} which parses as {:?}", x, hex(&out), y),
+                });
+            }
+        }
+    }
+    // parse(mutated emitted packet) = Ok y  ->  emit y -> parse = Ok y
+    let muts = mutations(r, &out, &T::fields(), "quick");
+    let take = if tier == "thorough" { 60 } else { 24 };
+    let step = (muts.len() / take).max(1);
+    let off = r.below(step as u64) as usize;
+    for m in muts.iter().skip(off).step_by(step) {
+        *stats.entry("mutated".into()).or_default() += 1;
+        let y = match guard(|| T::parse(m, &x)) {
+            None => {
+                fails.push(Fail { class: format!("{}-parse-panic", T::NAME), detail: format!("parse of {} panicked", hex(m)) });
+                continue;
+            }
+            Some(None) => continue,
+            Some(Some(y)) => y,
+        };
+        if !T::wf(&y) {
+            *stats.entry("reparse_outside_proviso".into()).or_default() += 1;
+            continue;
+        }
+        *stats.entry("reparsed".into()).or_default() += 1;
+        let out2 = match emit_all::<T>(r, &y, "reemit", &mut fails) {
+            Some(o) => o,
+            None => continue,
+        };
+        match guard(|| T::parse(&out2, &y)) {
+            None => fails.push(Fail { class: format!("{}-parse-panic", T::NAME), detail: format!("parse of re-emitted {} panicked", hex(&out2)) }),
+            Some(None) => fails.push(Fail {
+                class: format!("{}-reparse-parse-error", T::NAME),
+                detail: format!("{} parses as {:?}, which re-emits as {} and then does not parse", hex(m), y, hex(&out2)),
+            }),
+            Some(Some(z)) => {
+                if z != y {
+                    fails.push(Fail {
+                        class: format!("{}-reparse-mismatch", T::NAME),
+                        detail: format!("{} parses as {:?}, re-emits as {}, which parses as {:?}", hex(m), y, hex(&out2), z),
+                    });
+                }
+            }
+        }
+    }
+    fails
+}
+
+pub type RunFn = fn(&mut Rng, &str, Option<&Kv>, &mut BTreeMap<String, u64>) -> (Vec<Fail>, Option<String>);
+
+#[path = "oracle_c06_types.rs"]
+mod types;
+
+pub fn types_list() -> Vec<(&'static str, RunFn)> {
+    types::all()
+}
+
+fn subseed(seed: u64, i: usize) -> u64 {
+    let mut r = Rng::new(seed ^ 0xC06C06);
+    let a = r.next();
+    a ^ (i as u64).wrapping_mul(0x9E37_79B9_7F4A_7C15)
+}
+
+pub fn run(seed: u64, n: usize, tier: &str, out: &mut dyn Write) {
+    let types = types_list();
+    let mut stats: BTreeMap<String, u64> = BTreeMap::new();
+    let mut per_type: BTreeMap<String, u64> = BTreeMap::new();
+    let mut per_class: BTreeMap<String, u64> = BTreeMap::new();
+    let mut fail_lines: Vec<String> = vec![];
+    for i in 0..n {
+        let (name, f) = types[i % types.len()];
+        let s = subseed(seed, i);
+        let mut rng = Rng::new(s);
+        let (fails, enc) = f(&mut rng, tier, None, &mut stats);
+        *per_type.entry(name.into()).or_default() += 1;
+        for fl in fails {
+            let k = per_class.entry(fl.class.clone()).or_default();
+            *k += 1;
+            if *k > 3 || fail_lines.len() >= 60 {
+                continue;
+            }
+            writeln!(out, "FAILCASE").unwrap();
+            Case { id: format!("o{}-{}", seed, i), cfg: vec![("fmt".into(), "oracle".into()), ("kind".into(), "c06".into()), ("type".into(), name.into())], ops: vec![match &enc {
+                Some(e) => format!("repr seed={} tier={} {}", s, tier, e),
+                None => format!("seed {} {}", s, tier),
+            }] }
+                .write(out);
+            let mut d = fl.detail.clone();
+            if d.len() > 700 {
+                d.truncate(700);
+                d.push_str("…");
+            }
+            fail_lines.push(format!("{} :: {}", fl.class, d));
+        }
+    }
+    for l in &fail_lines {
+        writeln!(out, "FAIL {}", l).unwrap();
+    }
+    let st: Vec<String> = stats.iter().map(|(k, v)| format!("{}:{}", jstr(k), v)).collect();
+    let pt: Vec<String> = per_type.iter().map(|(k, v)| format!("{}:{}", jstr(&format!("type_{}", k)), v)).collect();
+    let pc: Vec<String> = per_class.iter().map(|(k, v)| format!("{}:{}", jstr(&format!("fail_{}", k)), v)).collect();
+    let mut all = vec![format!("\"cases\":{}", n), format!("\"types\":{}", types.len())];
+    all.extend(st);
+    all.extend(pt);
+    all.extend(pc);
+    writeln!(out, "STATS {{{}}}", all.join(",")).unwrap();
+}
+
+pub fn replay(c: &Case, out: &mut dyn Write) {
+    let ty = c.get("type").unwrap_or("?");
+    let types = types_list();
+    let f = match types.iter().find(|(n, _)| *n == ty) {
+        Some((_, f)) => *f,
+        None => return,
+    };
+    for fl in replay_fails(c, f) {
+        let mut d = fl.detail.clone();
+        if d.len() > 700 {
+            d.truncate(700);
+            d.push_str("…");
+        }
+        writeln!(out, "FAIL {} :: {}", fl.class, d).unwrap();
+    }
+}
+
+/// all failures of one oracle case (`seed <s> <tier>` or `repr seed=<s> tier=<t> <k=v …>` ops)
+pub fn replay_fails(c: &Case, f: RunFn) -> Vec<Fail> {
+    let mut all = vec![];
+    for op in &c.ops {
+        let t: Vec<&str> = op.split_whitespace().collect();
+        let mut stats = BTreeMap::new();
+        if t.len() >= 2 && t[0] == "seed" {
+            let s: u64 = t[1].parse().unwrap();
+            let tier = t.get(2).copied().unwrap_or("quick");
+            let mut rng = Rng::new(s);
+            all.extend(f(&mut rng, tier, None, &mut stats).0);
+        } else if t.len() >= 2 && t[0] == "repr" {
+            let kv = Kv::parse(op);
+            let s: u64 = kv.opt("seed").and_then(|x| x.parse().ok()).unwrap_or(1);
+            let tier = kv.opt("tier").unwrap_or("quick").to_string();
+            let mut rng = Rng::new(s);
+            all.extend(f(&mut rng, &tier, Some(&kv), &mut stats).0);
+        }
+    }
+    all
+}
+
+/// `ok` / `FAIL <classes>` per op: the observation of stream `wire-oracle` (expected: ok)
+pub fn run_case(c: &Case, out: &mut dyn Write) {
+    let ty = c.get("type").unwrap_or("?");
+    let types = types_list();
+    for op in &c.ops {
+        let one = Case { id: c.id.clone(), cfg: c.cfg.clone(), ops: vec![op.clone()] };
+        let line = match types.iter().find(|(n, _)| *n == ty) {
+            None => "FAIL unknown-type".to_string(),
+            Some((_, f)) => {
+                let fl = replay_fails(&one, *f);
+                if fl.is_empty() {
+                    "ok".to_string()
+                } else {
+                    let mut cl: Vec<String> = fl.iter().map(|x| x.class.clone()).collect();
+                    cl.sort();
+                    cl.dedup();
+                    format!("FAIL {}", cl.join(" "))
+                }
+            }
+        };
+        writeln!(out, "{}", line).unwrap();
+    }
+}
+
+/// cases of stream `wire-oracle`: the same cases the oracle runs, as replayable blocks
+pub fn gen_cases(seed: u64, n: usize, tier: &str, out: &mut dyn Write) {
+    let types = types_list();
+    for i in 0..n {
+        let (name, _) = types[i % types.len()];
+        Case { id: format!("g{}-{}", seed, i), cfg: vec![("fmt".into(), "oracle".into()), ("kind".into(), "c06".into()), ("type".into(), name.into())], ops: vec![format!("seed {} {}", subseed(seed, i), tier)] }
+            .write(out);
+    }
+}
+
+pub fn caps_default() -> ChecksumCapabilities {
+    ChecksumCapabilities::default()
+}
